@@ -315,6 +315,9 @@ func checkC18(c *Ctx) {
 		}
 	}
 	checkDocLineFlags(c, ev)
+	// the Required: line of a property says what the schema's required list says about that very name
+	checkRequiredExact(c, "C18.R2.required-exact", gen)
+	checkDocValuesVerbatim(c, "C18.R1.values-verbatim", ev)
 	checkAnnotations(c, ev, scan)
 
 	// ---- R2 every struct-field template emits the doc string
@@ -882,5 +885,31 @@ func checkStrfmtNames(c *Ctx, gen *packages.Package) {
 			c.Check(known && "strfmt."+want == v, rule, "generator.formatMapping › "+k, c.posOf(gen, r.Key.Pos()), v+" is registered as "+reg,
 				fmt.Sprintf("format %q is mapped to %s but strfmt registers %q for strfmt.%s (known=%v): the generated model validates and scans back as another format", k, v, reg, want, known))
 		}
+	}
+}
+
+
+// checkDocValuesVerbatim: the values written on the validation doc lines are read back by the
+// scanner as they stand. `comment` only re-prefixes continuation lines; a sanitiser that rewrites
+// characters (blockcomment turns `*/` into `[*]/`) changes the pattern, the default, the example
+// that comes back.
+func checkDocValuesVerbatim(c *Ctx, rule string, ev *tmpl.Evaluator) {
+	c.Rule(rule, "no value on a doc line the scanner reads back passes through a sanitiser that rewrites characters (blockcomment, escapeBackticks, …): only `comment`, `json`, `printf`", 2)
+	for _, def := range []string{"propertyValidationDocString", "docstring"} {
+		l := linearOf(c, ev, def)
+		if l == nil {
+			c.Anchor(rule, def, "template not found")
+			continue
+		}
+		var bad []string
+		for _, m := range regexp.MustCompile(`⟦([^⟧]*)⟧`).FindAllStringSubmatch(l.Text, -1) {
+			for _, f := range []string{"blockcomment", "escapeBackticks"} {
+				if regexp.MustCompile(`(^|[ (|])` + f + `([ )]|$)`).MatchString(m[1]) {
+					bad = append(bad, "{{"+strings.TrimSpace(m[1])+"}}")
+				}
+			}
+		}
+		c.Check(len(bad) == 0, rule, l.Tree.Asset+" › "+def+" › values are written as they are", l.Tree.File, "only line-comment padding is applied",
+			fmt.Sprintf("the doc template rewrites the value it prints (%v): the scanner reads the rewritten text back, so a pattern such as `^/mnt/.*/$` returns as `^/mnt/.[*]/$`", bad))
 	}
 }
